@@ -626,6 +626,7 @@ def run_case(store: Any, tpl: Dict[str, Any], model: Dict[str, Any], hid: str, p
         problems.append(dict(where=where, problem=problem, **kw))
 
     done: List[str] = []
+    first_handle: Any = None
     for k, (how, action) in enumerate(ops):
         here = ">".join(done + [how])
         try:
@@ -676,6 +677,8 @@ def run_case(store: Any, tpl: Dict[str, Any], model: Dict[str, Any], hid: str, p
                 trail.append({"op": here, "gc_raised": repr(e)[:200]})
                 info.append("gc_raised")  # the statement does not promise that collection succeeds
         done.append(op_name((how, action)))
+        if k == 0:
+            first_handle = t  # a long-lived handle: opened while the pointer was in the planted state
         del t
 
     # ---- re-open with another fresh handle; library view, then the independent reader -------------
@@ -736,6 +739,16 @@ def run_case(store: Any, tpl: Dict[str, Any], model: Dict[str, Any], hid: str, p
             if p:
                 note(here3, p, observed=_brief(o))
             info.append("second_pointer_loss_checked")
+            if first_handle is not None:
+                # the handle that was opened during the FIRST pointer damage is still alive: whatever it remembers
+                # from that recovery, it must see the commits made since
+                here4 = ">".join(done + ["pointer_lost_again", "first_handle_reads"])
+                o = observe(first_handle)
+                trail.append({"op": here4, "observed": _brief(o)})
+                p = exp.judge(o)
+                if p:
+                    note(here4, p, observed=_brief(o))
+                info.append("long_lived_handle_checked")
         except Exception as e:  # noqa
             trail.append({"op": here3, "open_raised": repr(e)[:200]})
             note(here3, "open_failed", error=repr(e)[:200])
